@@ -255,7 +255,18 @@ def mutate(toks, rng, nmut=None):
     desc = []
     nmut = nmut or rng.wpick([(5, 1), (3, 2), (2, 3)])
     for _ in range(nmut):
-        kind = rng.wpick([(10, "field"), (2, "section_drop"), (2, "section_dup"), (1, "section_swap"), (2, "coder"), (1, "resize_blob"), (1, "fix_propsize")])
+        aes = [i for i, t in enumerate(toks) if t.label == "props" and i > 1 and toks[i - 2].label == "methodid" and bytes(toks[i - 2].val) == b"\x06\xf1\x07\x01"]
+        kind = rng.wpick([(10, "field"), (2, "section_drop"), (2, "section_dup"), (1, "section_swap"), (2, "coder"), (1, "resize_blob"), (1, "fix_propsize"),
+                          (4 if aes else 0, "aes_cycles")])
+        if kind == "aes_cycles":
+            t = toks[rng.pick(aes)]
+            b = bytearray(t.val)
+            if b:
+                cyc = rng.pick([0, 1, 18, 20, 23, 25, 26, 30, 40, 62, 63])
+                b[0] = (b[0] & 0xC0) | cyc
+                t.val = bytes(b)
+                desc.append("7zAES NumCyclesPower -> %d" % cyc)
+            continue
         if kind == "field":
             cands = [i for i, t in enumerate(toks) if t.kind in ("num", "u32", "u64", "byte", "id", "bits")]
             if not cands:
